@@ -709,8 +709,19 @@ pub struct Forest {
     pub order_unchecked_tables: Vec<String>,
 }
 
+/// Where pages come from: the bytes of a storage image, or a live database (hook H4)
+pub trait PageSource {
+    fn read_page(&self, p: PageNo) -> Result<Vec<u8>, String>;
+}
+
+#[derive(Clone, Copy)]
+pub enum Src<'a> {
+    Img(&'a [u8]),
+    Dyn(&'a dyn PageSource),
+}
+
 pub struct Decoder<'a> {
-    pub img: &'a [u8],
+    pub src: Src<'a>,
     pub header: Header,
     pub layout: Layout,
     /// order-0 page start offset -> owner description, for the no-page-twice check
@@ -734,7 +745,7 @@ impl<'a> Decoder<'a> {
         let header = parse_header(img)?;
         let layout = Layout::from_len(&header, img.len() as u64)?;
         Ok(Decoder {
-            img,
+            src: Src::Img(img),
             header,
             layout,
             visited: HashMap::new(),
@@ -742,6 +753,19 @@ impl<'a> Decoder<'a> {
             hash_cross_checks: 0,
             check_unique: true,
         })
+    }
+
+    /// Decoder over an arbitrary page source with an externally supplied header and layout
+    pub fn with_source(src: &'a dyn PageSource, header: Header, layout: Layout) -> Self {
+        Decoder {
+            src: Src::Dyn(src),
+            header,
+            layout,
+            visited: HashMap::new(),
+            cross_check_hash: false,
+            hash_cross_checks: 0,
+            check_unique: true,
+        }
     }
 
     fn hash(&mut self, d: &[u8]) -> Result<u128, String> {
@@ -755,11 +779,21 @@ impl<'a> Decoder<'a> {
         Ok(h)
     }
 
-    pub fn page(&self, p: PageNo) -> Result<&'a [u8], String> {
+    pub fn page(&self, p: PageNo) -> Result<std::borrow::Cow<'a, [u8]>, String> {
         let (s, e) = self.layout.range(p)?;
-        self.img
-            .get(s as usize..e as usize)
-            .ok_or_else(|| format!("page {p} [{s},{e}) lies outside the file"))
+        match self.src {
+            Src::Img(img) => img
+                .get(s as usize..e as usize)
+                .map(std::borrow::Cow::Borrowed)
+                .ok_or_else(|| format!("page {p} [{s},{e}) lies outside the file")),
+            Src::Dyn(d) => {
+                let v = d.read_page(p)?;
+                if v.len() as u64 != e - s {
+                    return Err(format!("page {p}: source returned {} bytes, expected {}", v.len(), e - s));
+                }
+                Ok(std::borrow::Cow::Owned(v))
+            }
+        }
     }
 
     fn claim(&mut self, p: PageNo, owner: &str) -> Result<(), String> {
@@ -839,7 +873,8 @@ impl<'a> Decoder<'a> {
         }
         self.claim(p, owner)?;
         pages.insert(p);
-        let mem = self.page(p)?;
+        let mem_cow = self.page(p)?;
+        let mem: &[u8] = &mem_cow;
         match mem[0] {
             1 => {
                 let n = u16le(mem, 2).unwrap() as usize;
@@ -1164,6 +1199,17 @@ impl<'a> Decoder<'a> {
             );
         }
         Ok(out)
+    }
+
+    pub fn walk_catalog_pub(
+        &mut self,
+        root: Option<TreeHdr>,
+        what: &str,
+        pages: &mut BTreeSet<PageNo>,
+        catalog_stats: &mut TreeStats,
+        unchecked: &mut Vec<String>,
+    ) -> Result<BTreeMap<String, TableDump>, String> {
+        self.walk_catalog(root, what, pages, catalog_stats, unchecked)
     }
 
     /// Decode and check the whole forest hanging off commit slot `slot`.
